@@ -65,9 +65,14 @@ def run(check: Check) -> None:
     recorded = 0
     A0 = [float((3 * i + 1) % 7) + 0.5 for i in range(n)]
     B0 = [float((5 * i + 2) % 11) - 2.25 for i in range(n)]
-    for fam in families(check):
-        for intercept, efr in itertools.product((True, False), (True, False)):
-            formula = mc.render_formula(fam, intercept)
+    from . import formula_gen
+
+    todo = [(mc.render_formula(fam, intercept), efr) for fam in families(check) for intercept, efr in itertools.product((True, False), (True, False))]
+    gen = formula_gen.formulas(check.seed * 2 + 21, 300 if check.tier == "thorough" else 40, "nobranch")
+    todo += [(f, efr) for f in gen for efr in (True, False)]
+    check.bounds["generated_formulas"] = len(gen)
+    for formula, efr in todo:
+        if True:
             variants = [(e, o, m) for e in ENTRY_POINTS for o in ("pandas", "numpy") for m in (None, "narwhals")]
             if check.tier != "thorough":
                 variants = [variants[0]] + rng.sample(variants[1:], 5)
